@@ -156,6 +156,10 @@ def c02_cells(tier="quick"):
         cells.append((f"delayed_var.di{di}.eo{eo}", base(6, [vr("t0", 2, 4), fx("t1", 2)], workers=W[:1],
                                                          requirements=[
             {"task": "t0", "resource": "w0", "delay_in": di, "early_out": eo}, {"task": "t1", "resource": "w0"}])))
+    for di, eo in ((2, 0), (1, 1)):
+        cells.append((f"delayed_opt.di{di}.eo{eo}.fo", base(5, [fx("t0", 3, optional=True), fx("t1", 1)], workers=W[:1],
+                                                            requirements=[
+            {"task": "t0", "resource": "w0", "delay_in": di, "early_out": eo}, {"task": "t1", "resource": "w0"}])))
     for t0 in (fx("t0", 3), vr("t0", 1, 3), fx("t0", 2, optional=True)):
         cells.append((f"dynamic.{t0['type']}{'o' if t0.get('optional') else ''}", base(
             4, [t0, fx("t1", 1)], workers=W[:1], requirements=[
@@ -328,6 +332,13 @@ def c09_cells(tier="quick"):
                 {"id": "u0", "kind": "TaskUnloadBuffer", "task": "t0", "buffer": "bf", "quantity": 1},
                 {"id": "l1", "kind": "TaskLoadBuffer", "task": "t1", "buffer": "bf", "quantity": 2},
                 {"id": "u2", "kind": "TaskUnloadBuffer", "task": "t2", "buffer": "bf", "quantity": 1}])))
+    # one task that unloads at its start and loads the same buffer at its end
+    for conc in (False, True):
+        cells.append((f"{'conc' if conc else 'nonconc'}.same_task_UL", base(4, [fx("t0", 2), fx("t1", 1)], buffers=[
+            {"name": "bf", "concurrent": conc, "initial": 2, "lower": 0}], constraints=[
+            {"id": "u0", "kind": "TaskUnloadBuffer", "task": "t0", "buffer": "bf", "quantity": 2},
+            {"id": "l0", "kind": "TaskLoadBuffer", "task": "t0", "buffer": "bf", "quantity": 1},
+            {"id": "u1", "kind": "TaskUnloadBuffer", "task": "t1", "buffer": "bf", "quantity": 1}])))
     # one task feeding one buffer from another
     cells.append(("chain", base(5, [fx("t0", 2), fx("t1", 1)], buffers=[
         {"name": "b1", "initial": 2, "lower": 0}, {"name": "b2", "initial": 0, "upper": 2}], constraints=[
